@@ -4,7 +4,6 @@ import (
 	"bytes"
 	"encoding/json"
 	"maps"
-	"strconv"
 	"strings"
 
 	"reflect"
@@ -77,10 +76,31 @@ func DeletedPropertiesToString(properties *graph.Properties) string {
 	quoted := make([]string, 0, len(deleted))
 
 	for _, prop := range deleted {
-		quoted = append(quoted, strconv.Quote(prop))
+		quoted = append(quoted, quoteTextArrayElement(prop))
 	}
 
 	return "{" + strings.Join(quoted, ",") + "}"
+}
+
+// quoteTextArrayElement writes one element of a text[] literal. Inside the double quotes the array input routine
+// only knows the backslash, which makes the next character literal; Go escapes such as \n or \u2028 are not array
+// escapes (a key with a line break used to reach the server as "...n...").
+func quoteTextArrayElement(element string) string {
+	var builder strings.Builder
+
+	builder.Grow(len(element) + 2)
+	builder.WriteByte('"')
+
+	for idx := 0; idx < len(element); idx++ {
+		if element[idx] == '"' || element[idx] == '\\' {
+			builder.WriteByte('\\')
+		}
+
+		builder.WriteByte(element[idx])
+	}
+
+	builder.WriteByte('"')
+	return builder.String()
 }
 
 func JSONBToProperties(jsonb pgtype.JSONB) (*graph.Properties, error) {
